@@ -19,6 +19,8 @@ import pyairtouch.comms.socket as psock  # noqa: E402
 class RxRig:
     def __init__(self, gen: int) -> None:
         self.gen = gen
+        from . import bystander
+        bystander.ensure_sock(gen)
         self.loop, self.net = vloop.new_loop()
         asyncio.set_event_loop(self.loop)
         self.reg = sockrun.registry(gen)
